@@ -373,22 +373,17 @@ Proof.
 Qed.
 
 Theorem cross_join_product : forall self other prefix,
-  wf self -> wf other -> nrows self <> 0%nat -> nrows other <> 0%nat -> hdr self <> [] ->
+  wf self -> wf other -> hdr self <> [] ->
   NoDup (hdr self ++ prefixed prefix (hdr other)) ->
   exists t,
     cross_join self other prefix = Ok t /\ wf t /\
     hdr t = hdr self ++ prefixed prefix (hdr other) /\
     rows t = spec_cross_join (rows self) (rows other).
 Proof.
-  intros self other prefix Hws Hwo Hn Hm Hne Hnd. unfold cross_join.
+  intros self other prefix Hws Hwo Hne Hnd. unfold cross_join.
   destruct (product_sel_spec (nrows self) (nrows other)) as [Hlen Hcomb].
   destruct (product_sel (nrows self) (nrows other)) as [ss os] eqn:Eps. cbn [fst snd] in Hlen, Hcomb.
-  assert (Hss : ss <> []).
-  { unfold product_sel in Eps. injection Eps as Es _.
-    destruct (nrows self) as [|n]; [contradiction|]. destruct (nrows other) as [|m]; [contradiction|].
-    rewrite <- Es. cbn. discriminate. }
-  destruct ss as [|s0 ss']; [contradiction|].
-  rewrite (assemble_ok self other (hdr other) prefix (s0 :: ss') os Hws Hwo (incl_refl _) Hne Hnd Hlen).
+  rewrite (assemble_ok self other (hdr other) prefix ss os Hws Hwo (incl_refl _) Hne Hnd Hlen).
   eexists. split; [reflexivity|]. split; [|split].
   - unfold wf. cbn [hdr cols nrows]. split; [|split].
     + destruct Hws as [Hl _]. rewrite !app_length, prefixed_length, !map_length. lia.
@@ -402,24 +397,20 @@ Proof.
     rewrite !map_map. reflexivity.
 Qed.
 
-(* the code raises ValueError when either table has no rows, where the row-list
-   specification gives the empty table *)
-Theorem cross_join_empty_refuted : exists self other,
-  wf self /\ wf other /\ hdr self <> [] /\ NoDup (hdr self ++ prefixed right_ (hdr other)) /\
-  spec_cross_join (rows self) (rows other) = [] /\
-  joined self other None None false right_ = Er E_Value.
-Proof.
-  exists (mkT [[97]] [[CI 1; CI 2]] 2), (mkT [[98]] [[]] 0).
-  split; [|split; [|split; [|split; [|split]]]].
-  - unfold wf. cbn. split; [reflexivity|]. split; [repeat constructor|].
-    constructor; [intros []|constructor].
-  - unfold wf. cbn. split; [reflexivity|]. split; [repeat constructor|].
-    constructor; [intros []|constructor].
-  - discriminate.
-  - cbn. constructor; [cbn; intros [H|[]]; discriminate H|]. constructor; [intros []|constructor].
-  - reflexivity.
-  - reflexivity.
-Qed.
+(* public entry point, a table without rows included: the product is the empty table *)
+Theorem joined_cross_product : forall self other prefix,
+  wf self -> wf other -> hdr self <> [] ->
+  NoDup (hdr self ++ prefixed right_ (hdr other)) ->
+  exists t,
+    joined self other None None false prefix = Ok t /\ wf t /\
+    hdr t = hdr self ++ prefixed right_ (hdr other) /\
+    rows t = spec_cross_join (rows self) (rows other).
+Proof. intros. unfold joined. apply cross_join_product; assumption. Qed.
+
+Example cross_join_empty_table :
+  joined (mkT [[97]] [[CI 1; CI 2]] 2) (mkT [[98]] [[]] 0) None None false right_ =
+  Ok (mkT [[97]; right_ ++ [98]] [[]; []] 0).
+Proof. vm_compute. reflexivity. Qed.
 
 (* non-vacuity of the join theorem: a concrete join with duplicate keys on both sides *)
 Example inner_join_hyps_inhabited :
